@@ -1,7 +1,9 @@
 """Mechanical extraction of function bodies from the working tree (DESIGN 1.2).
 
 Nothing here is cached between runs: every call re-reads $VERIF_REPO/src/pyrtcm/*.py.
-What extraction drops: docstrings, comments/pragmas, type annotations.  Calls on a logger
+What extraction drops: docstrings, comments/pragmas, type annotations.  What it may change: local variable names, renamed
+consistently back to the names pinned in spec/pinned_locals.json when (and only when) the function has exactly the pinned shape
+apart from those names (FuncInfo.alpha records the renaming; it is listed in the evidence).  Calls on a logger
 are modelled as no-ops by the executor (symex.py), everything else is executed or makes the
 function *unsupported*.
 """
@@ -49,11 +51,90 @@ def file_sha(modname):
     return hashlib.sha256(module_ast(modname)[1]).hexdigest()
 
 
+def local_names(node):
+    """Names bound inside the function other than its parameters, in order of first binding (source order)."""
+    params = {a.arg for a in node.args.args + node.args.kwonlyargs + node.args.posonlyargs}
+    if node.args.vararg:
+        params.add(node.args.vararg.arg)
+    if node.args.kwarg:
+        params.add(node.args.kwarg.arg)
+    seen = []
+    binds = []
+    for n in ast.walk(node):
+        if isinstance(n, ast.Name) and isinstance(n.ctx, (ast.Store, ast.Del)):
+            binds.append((n.lineno, n.col_offset, n.id))
+        elif isinstance(n, ast.ExceptHandler) and n.name:
+            binds.append((n.lineno, n.col_offset, n.name))
+    for _, _, name in sorted(binds):
+        if name not in params and name not in seen:
+            seen.append(name)
+    return seen
+
+
+class _Alpha(ast.NodeTransformer):
+    def __init__(self, mapping):
+        self.mapping = mapping
+
+    def visit_Name(self, n):
+        if n.id in self.mapping:
+            n.id = self.mapping[n.id]
+        return n
+
+    def visit_ExceptHandler(self, n):
+        if n.name in self.mapping:
+            n.name = self.mapping[n.name]
+        self.generic_visit(n)
+        return n
+
+
+def shape_of(node, locals_):
+    """Hash of the function with its local names replaced by their ordinal: equal for two functions that differ only in how
+    their locals are called (docstring, annotations and positions do not enter)."""
+    import copy
+    c = copy.deepcopy(node)
+    c.body = strip_docstring(c.body)
+    c.returns = None
+    for a in c.args.args + c.args.kwonlyargs:
+        a.annotation = None
+    c = _Alpha({n: f"__local{i}__" for i, n in enumerate(locals_)}).visit(c)
+    for n in ast.walk(c):
+        if isinstance(n, ast.AnnAssign):
+            n.annotation = ast.Constant(None)
+    return hashlib.sha256(ast.dump(c, include_attributes=False).encode()).hexdigest()
+
+
+_pinned_locals = None
+
+
+def pinned_locals():
+    global _pinned_locals
+    if _pinned_locals is None:
+        import json
+        p = os.path.join(os.path.dirname(os.path.dirname(os.path.abspath(__file__))), "spec", "pinned_locals.json")
+        _pinned_locals = json.load(open(p)) if os.path.exists(p) else {}
+    return _pinned_locals
+
+
 class FuncInfo:
     def __init__(self, qualname, modname, clsname, node, src, decorators):
         self.qualname = qualname
         self.modname = modname
         self.clsname = clsname
+        # Sidecar invariants name some locals.  If the function differs from the one the sidecars were written against ONLY in how
+        # its locals are called (same shape hash), the locals are renamed back, consistently, in the extracted copy - the verified
+        # text is then the real code up to alpha-conversion, applied mechanically; any other difference leaves the text untouched.
+        self.locals = local_names(node)
+        self.shape = shape_of(node, self.locals)
+        self.alpha = {}
+        pin = pinned_locals().get(qualname)
+        if pin and pin["shape"] == self.shape and pin["locals"] != self.locals and len(pin["locals"]) == len(self.locals):
+            mapping = {cur: old for cur, old in zip(self.locals, pin["locals"]) if cur != old}
+            # two-step renaming so that a swap of two names is handled
+            tmp = {cur: f"__alpha{i}__" for i, cur in enumerate(mapping)}
+            import copy
+            node = _Alpha(tmp).visit(copy.deepcopy(node))
+            node = _Alpha({t: mapping[cur] for cur, t in tmp.items()}).visit(node)
+            self.alpha = mapping
         self.node = node
         self.decorators = decorators
         self.is_property = "property" in decorators
